@@ -1100,6 +1100,7 @@ func Check(res *Result) []Fail {
 			bumpedSoFar := false
 			stampedSoFar := map[int]bool{}
 			stampsGiven := map[[2]int]int{}
+			needBump := map[int]bool{}
 			var cur *st
 			for _, e := range res.Events {
 				switch e.Kind {
@@ -1116,7 +1117,14 @@ func Check(res *Result) []Fail {
 				case "ret.err":
 					if stampedSoFar[e.ID] {
 						bumpedSoFar = true
+						needBump[e.ID] = true
 					}
+				case "txn.bump":
+					// R5: the failure of a message that carried a sequence number bumps the epoch, exactly once
+					if !needBump[e.ID] {
+						add("C05:epoch-bump-without-failed-sequenced-message", "epoch bumped for message %d, which has no error event as a sequenced message (or was bumped before)", e.ID)
+					}
+					delete(needBump, e.ID)
 				case "retry", "retrybatch":
 					lastReentry[e.ID] = e.Kind
 				case "bp.sent.stamp":
@@ -1142,6 +1150,12 @@ func Check(res *Result) []Fail {
 					lastSent[e.ID] = wire
 				case "bp.sent.end":
 					cur = nil
+				}
+			}
+			if res.ClosedOK {
+				for id := range needBump {
+					add("C05:failed-sequenced-message-without-epoch-bump", "message %d carried a sequence number and was failed, but the producer epoch was not bumped (the broker will never see that sequence number)", id)
+					break
 				}
 			}
 		}
